@@ -19,11 +19,11 @@ CONFIG = {
     ],
     "mult_search": 4,
     "refuted": [],
-    "partial": ["C09_full_statement is not proved; proved: totality, formatter accepts what the parser accepts, tokenSource/lexer inverse pairs for STRING, REGEX, DESCRIPTION, COMMENT, BLOCK_COMMENT, separation lemmas for identifiers and integers, token round trip for every token the lexer can emit (C09_token_roundtrip), line-level relex for every renderable single-line fragment (C09_line_relex, C09_fragments_renderable), fixed-point property of the description re-flow"],
+    "partial": ["C09_full_statement is a Definition only (no theorem has it as conclusion); the clauses output-accepted, same-document and idempotent are NOT proved for whole files; proved components: totality, formatter accepts what the parser accepts, tokenSource/lexer inverse pairs for STRING, REGEX, DESCRIPTION, COMMENT, BLOCK_COMMENT, separation lemmas for identifiers and integers, token round trip for every token the lexer can emit (C09_token_roundtrip), line-level relex for every renderable single-line fragment (C09_line_relex, C09_fragments_renderable), sequence relex of separated items (C09_sequence_relex), walker half of the round trip: walking the canonical token stream of a walker-produced fragment list gives the same fragments up to positions (C09_walk_back), fixed-point property of the description re-flow (C09_reflow_fixed_point) and its preservation of words and paragraph breaks (C09_reflow_same_paragraphs). Missing: description-block lines at line level, the file-level composition lex(Fmt x) = canonical stream, acceptance of the output from block structure, idempotence beyond the re-flow"],
 }
 
 MANIFEST = {
-    "text": "Theorems over a Gallina model of the formatter (tokenSource, fmter, reformatDescription, Fmt) on top of the proved lexer/walker models: Fmt never panics or exhausts fuel; it accepts every file the parser accepts; for every literal token kind, lexing the text tokenSource renders, followed by anything that cannot extend the token (the stated separation condition), returns the same token type and literal and stops right after it — strings for ALL rune lists (escapes \\\\ \\\" and escaped newline), regexes (// for /), descriptions, line comments, block comments (no */ inside), and identifiers / integers as their own source; the description re-flow is a fixed point (reformat(join(reformat x)) = reformat x for every text and width). The full property (output accepted by the parser, same document, idempotent) is stated as C09_full_statement and is not proved; its clauses are evaluated by the direct oracle on every generated file, and Fmt's output is compared byte for byte with the model's.",
-    "note": "PARTIAL: literal and token level + totality only. Not proved: fragment-level round trip (walk(lex(render fs)) = fs up to positions) and idempotence of the whole formatter (its description part, the re-flow fixed point, is proved). The proofs are for the code after fixes ab323ff (tokenSource used %q and did not re-double '/'), 4c24869 (re-flow not a fixed point), 266986b (empty description printed as an empty line) and e44da54 (spurious blank line after a brace-less header with a trailing comment). Trusted: Coq kernel, translator, harness; Go string functions modelled.",
+    "text": "Theorems over a Gallina model of the formatter (tokenSource, fmter, reformatDescription, Fmt) on top of the proved lexer/walker models: Fmt never panics or exhausts fuel; it accepts every file the parser accepts; for every token the lexer can emit (C09_token_roundtrip, side conditions discharged by the lexer lemma next_token_lit_ok), lexing the text tokenSource renders, followed by anything that cannot extend the token (the stated separation condition), returns the same token type and literal and stops right after it — strings for ALL rune lists (escapes \\\\ \\\" and escaped newline), regexes (// for /), descriptions, line comments, block comments (no */ inside), and identifiers / integers as their own source; the description re-flow is a fixed point (reformat(join(reformat x)) = reformat x for every text and width) and keeps the words and paragraph breaks (desc_doc(join(reformat x)) = desc_doc x). The full property (output accepted by the parser, same document, idempotent) is stated as C09_full_statement and is not proved; its clauses are evaluated by the direct oracle on every generated file, and Fmt's output is compared byte for byte with the model's.",
+    "note": "PARTIAL: component theorems only; C09_full_statement is a Definition, not a theorem. Proved: totality, literal/token/line-level relex, renderability of walker output, the walker half of the round trip (C09_walk_back), the re-flow fixed point. Not proved: that lexing the whole output gives the canonical token stream (the link between C09_line_relex and C09_walk_back), hence none of accepted / same document / idempotent at file level; those are oracle-checked per run. The proofs are for the code after fixes ab323ff (tokenSource used %q and did not re-double '/'), 4c24869 (re-flow not a fixed point), 266986b (empty description printed as an empty line) and e44da54 (spurious blank line after a brace-less header with a trailing comment). Trusted: Coq kernel, translator, harness; Go string functions modelled.",
     "technique": "Rocq/Coq proof (inverse-pair lemmas between tokenSource and each lexer routine by induction on the literal) + byte-exact in-Coq differential correspondence of Fmt, tokenSource and reformatDescription + direct oracle (re-parse, position-free document comparison, format twice)",
 }
